@@ -147,6 +147,14 @@ func NewUDPPeer(ioc *sonic.IO, network string, addr string) (*UDPPeer, error) {
 			"could not create socket domain=%s err=%v", domain, err)
 	}
 
+	// The socket is ours until the peer is constructed.
+	success := false
+	defer func() {
+		if !success {
+			_ = socket.Close()
+		}
+	}()
+
 	if err := socket.SetNonblocking(true); err != nil {
 		return nil, fmt.Errorf("cannot make socket nonblocking")
 	}
@@ -225,6 +233,7 @@ func NewUDPPeer(ioc *sonic.IO, network string, addr string) (*UDPPeer, error) {
 		}
 	}
 
+	success = true
 	return p, nil
 }
 
